@@ -67,7 +67,9 @@
 // Delay / Gate before the reply is written (later frames of the connection wait
 // behind it), and fault points DropBefore (close instead of executing),
 // DropAfter (execute, close, no reply), HalfReply (execute, write half of the
-// reply bytes, close), Stall (execute, never write anything again). Kill closes a
+// reply bytes, close), Stall (execute, never write anything again). A dropped
+// connection still delivers the frames queued before the fault (as TCP would) and
+// neither executes nor logs later commands. Kill closes a
 // connection from the server side; Inject queues an arbitrary frame.
 //
 // NOT implemented: inline commands, REDIRECT tracking, cluster/sentinel commands,
@@ -280,6 +282,7 @@ type conn struct {
 	watch   map[string]uint64
 	subs    [3]map[string]struct{}
 	outq    []item
+	drop    bool // a fault closes the connection once the frames queued so far are written
 	cond    *sync.Cond
 	done    chan struct{}
 }
@@ -567,7 +570,10 @@ func (s *Server) writer(c *conn) {
 				return
 			}
 		}
-		_, err := c.nc.Write(it.data)
+		var err error
+		if len(it.data) > 0 {
+			_, err = c.nc.Write(it.data)
+		}
 		if err != nil || it.close {
 			s.mu.Lock()
 			s.closeConn(c)
@@ -575,6 +581,14 @@ func (s *Server) writer(c *conn) {
 			return
 		}
 	}
+}
+
+// dropConn closes the connection like a peer that dies: what was queued before is still
+// delivered (as TCP would), later commands are neither executed nor logged.
+func (s *Server) dropConn(c *conn) {
+	c.drop = true
+	c.outq = append(c.outq, item{close: true})
+	c.cond.Signal()
 }
 
 // closeConn must be called with s.mu held.
@@ -647,7 +661,7 @@ func (s *Server) matchRule(c *conn, argv []string) *Rule {
 }
 
 func (s *Server) handle(c *conn, argv []string) {
-	if c.Closed {
+	if c.Closed || c.drop {
 		return
 	}
 	s.nextID++
@@ -659,7 +673,7 @@ func (s *Server) handle(c *conn, argv []string) {
 		r = &Rule{}
 	}
 	if r.Fault == DropBefore {
-		s.closeConn(c)
+		s.dropConn(c)
 		return
 	}
 	s.cur, s.curConn = id, c
@@ -675,7 +689,7 @@ func (s *Server) handle(c *conn, argv []string) {
 		frames = []any{Raw(r.Reply)}
 	}
 	if r.Fault == DropAfter {
-		s.closeConn(c)
+		s.dropConn(c)
 	} else {
 		var data []byte
 		for _, f := range frames {
